@@ -19,8 +19,12 @@ RULE = ("f-string literals from the product prefix x quote style x literal parts
 ASSUMPTIONS = ["reference = tokenize/ast.parse of CPython 3.12.1", "`=` debug fields whose expression contains !=, a comment or a nested f-string are skipped (CPython 3.12.1 computes their text wrongly)", "oracle normalisations of 3.12.1 artefacts: the empty Constant appended to a format spec ending in a nested field is dropped; empty FSTRING_MIDDLE tokens are dropped", "CPython splits a literal part at doubled braces (a{{b -> 'a{','b'); adjacent FSTRING_MIDDLE tokens are merged on both sides and only text is compared for them"]
 
 
+_watchdog = {"fired": 0}
+
+
 def worker_init():
     base.load_repo()
+    base.CASE_TIMEOUT = 10.0  # f-string sources are short; three watchdog firings stop a shard (reported as inconclusive)
 
 
 def _merge_middles(sig):
@@ -47,6 +51,9 @@ def _xtok(src):
 
 
 def check_case(acc, src, origin):
+    if _watchdog["fired"] >= 3:
+        acc.count("skipped_after_watchdog")
+        return
     ptoks = gen_py.py_tokens(src)
     if ptoks is None or not any(t.type == pytok.FSTRING_START for t in ptoks):
         acc.count("skipped_no_fstring")
@@ -66,6 +73,7 @@ def check_case(acc, src, origin):
     exp = _merge_middles(tokcheck.placement_only(tokcheck.cpython_sig(ptoks)))
     out = base.guarded(_xtok, src)
     if out.kind == "timeout":
+        _watchdog["fired"] += 1
         acc.inconc("case-watchdog", case)
         return
     acc.evals += 1
@@ -85,6 +93,7 @@ def check_case(acc, src, origin):
     # --- tree
     pout = base.parse(src, "exec")
     if pout.kind == "timeout":
+        _watchdog["fired"] += 1
         acc.inconc("case-watchdog", case)
         return
     acc.count("tree_comparisons")
@@ -260,6 +269,8 @@ def gen_field(rnd, quote, depth):
     dbg = "=" if rnd.random() < 0.15 else ""
     if dbg and rnd.random() < 0.3:
         dbg = rnd.choice([" = ", "= ", " ="])
+    if dbg and len(quote) == 3 and rnd.random() < 0.25:
+        dbg = rnd.choice(["=\n", "=\n\n", " =\n  \n ", "\n=\n", "=  \n\t\n"])  # white space after `=` may span blank lines
     conv = rnd.choice(CONV)
     spec = rnd.choice(SPECS)
     if len(quote) == 3 and rnd.random() < 0.1:
@@ -306,13 +317,14 @@ FIXED = ["x = f'a'\n", "x = f''\n", "x = f'{a}'\n", "x = f'{a}{b}'\n", "x = f'a{
          "x = f'{a!r}'\n", "x = f'{a=}'\n", "x = f'{a = }'\n", "x = f'{a=!r:>10}'\n", "x = f'{a:{b}.{c}}'\n", "x = f'{a:}'\n", "x = f'{f\"{b}\"}'\n", "x = f\"{f\"{b}\"}\"\n", "x = f'''{a\n}'''\n",
          "x = f'''a\n{b}\nc'''\n", "x = f'{a}' 'b'\n", "x = 'a' f'{b}'\n", "x = f'a' f'b'\n", "x = f'{a}' f'{b}'\n", "x = rf'\\d{a}'\n", "x = f'\\N{BULLET}{a}'\n", "x = f'{{'\n", "x = f'}}'\n",
          "x = f'{a:%Y-%m-%d}'\n", "x = f'{a!s:^{w}}'\n", "x = f'{a:{b:{c}}}'\n", "x = f'{{{a}}}'\n", "x = f'{a}}}'\n", "x = f'{{{{'\n", "x = f'{\"}\"}'\n", "x = f'{a}' \\\n  f'{b}'\n", "x = f'{d[\"k\"]}'\n",
-         "x = f'{a,}'\n", "x = f'{*a,}'\n", "x = f'{lambda: 0}'\n" if False else "x = f'{(lambda: 0)}'\n", "x = f'{a:\\n}'\n" if False else "x = f'{a:x}'\n", "x = F'{a}'\n", "x = fR'{a}\\n'\n", "x = f'é{a}ü'\n", "x = f'{é}'\n"]
+         "x = f'{a,}'\n", "x = f'{*a,}'\n", "x = f\'\'\'{a=\n\n}\'\'\'\n", "x = f\'\'\'{a =\n  \n !r:>3}\'\'\'\n", "x = f\'\'\'z{a + 1 =\n\n\n:>10}b\'\'\'\n", "x = f'{lambda: 0}'\n" if False else "x = f'{(lambda: 0)}'\n", "x = f'{a:\\n}'\n" if False else "x = f'{a:x}'\n", "x = F'{a}'\n", "x = fR'{a}\\n'\n", "x = f'é{a}ü'\n", "x = f'{é}'\n"]
 
 
 def run_shard(shard):
     acc = Acc()
+    _watchdog["fired"] = 0
     if "replay" in shard:
-        check_case(acc, shard["replay"]["src"], "replay")
+        check_case(acc, shard["replay"].get("src", shard["replay"].get("example", "")), "replay")
         return acc.dump()
     rnd = random.Random(f"{shard['seed']}:{shard['kind']}:{shard.get('idx', 0)}")
     kind = shard["kind"]
